@@ -1563,11 +1563,18 @@ func (c *control) scanCond(buf []byte, pos int) ([]string, string, int) {
 				if colon {
 					defNext = true
 				}
+				tilde = false
 			case '[':
 				// This ends up with a double scan, maybe fine for the rare
 				// case where it occurs.
 				_, _, pos = c.scanCond(buf, pos)
 				pos += 2
+				tilde = false
+			case '\'':
+				// A character parameter, the character is not a directive.
+				pos++
+			case '0', '1', '2', '3', '4', '5', '6', '7', '8', '9', ',', 'v', 'V', '#', '+', '-':
+				// Parameters of the directive that follows.
 			case ']':
 				if at || colon {
 					c.invalidDir(buf, pos)
